@@ -251,7 +251,8 @@ class ResolveAssociatesTransformer(Transformer):
         name = self.visit(o.name, **kwargs)
         arguments = self.visit(o.arguments, **kwargs)
         kwarguments = tuple((k, self.visit(v, **kwargs)) for k, v in o.kwarguments)
-        return o._rebuild(name=name, arguments=arguments, kwarguments=kwarguments)
+        chevron = self.visit(o.chevron, **kwargs)
+        return o._rebuild(name=name, arguments=arguments, kwarguments=kwarguments, chevron=chevron)
 
 
 def do_merge_associates(routine, max_parents=None):
